@@ -331,6 +331,32 @@ func c11InProcess(c *fw.Ctx) {
 }
 
 // HTTP path.
+// c11NarrowedSubjects (HTTP path only): library characteristics that got their default value while readable and whose
+// permissions the application then narrowed to write-only. What the object still holds is the application's
+// business and is not judged; a controller's GET /characteristics must be refused all the same, because the
+// permission decides, not the presence of a value.
+var c11Narrowed = map[*characteristic.Characteristic]bool{}
+
+func c11NarrowedSubjects() []c11Subject {
+	mk := func(name string, build func() *characteristic.Characteristic) c11Subject {
+		return c11Subject{name + "[narrowed to pw]", func() *characteristic.Characteristic {
+			ch := build()
+			ch.Perms = characteristic.PermsWriteOnly()
+			c11Narrowed[ch] = true
+			return c11Declare(ch, []string{"pw"})
+		}}
+	}
+	return []c11Subject{
+		mk("characteristic.NewBrightness", func() *characteristic.Characteristic { return characteristic.NewBrightness().Characteristic }),
+		mk("characteristic.NewOn", func() *characteristic.Characteristic { return characteristic.NewOn().Characteristic }),
+		mk("characteristic.NewName", func() *characteristic.Characteristic {
+			n := characteristic.NewName()
+			n.SetValue("stale-name")
+			return n.Characteristic
+		}),
+	}
+}
+
 func c11HTTP(c *fw.Ctx) {
 	dir := filepath.Join(c.Scratch, "c11")
 	defer os.RemoveAll(dir)
@@ -346,7 +372,7 @@ func c11HTTP(c *fw.Ctx) {
 	var accs []*accessory.Accessory
 	var cur *accessory.Accessory
 	var svc *service.Service
-	for i, sub := range c11Subjects() {
+	for i, sub := range append(c11Subjects(), c11NarrowedSubjects()...) {
 		if i%25 == 0 {
 			cur = accessory.New(accessory.Info{Name: fmt.Sprintf("P%d", i/25)}, accessory.TypeOther)
 			svc = service.New(fmt.Sprintf("E1%02d", i/25))
@@ -471,7 +497,7 @@ func c11HTTP(c *fw.Ctx) {
 		}
 		es, perr := c09ParseEntries(m.Body)
 		if !canR(ch) {
-			if ch.Value != nil {
+			if ch.Value != nil && !c11Narrowed[ch] {
 				c.Report("http-value-stored-without-pr/"+ch.Format, fmt.Sprintf("%s %s: a value is stored", e.name, pk), cas)
 			}
 			if perr == nil && len(es) == 1 && es[0].hasVal {
@@ -495,7 +521,7 @@ func c11HTTP(c *fw.Ctx) {
 			switch {
 			case perr == nil && len(es) == 1 && es[0].hasVal:
 				c.Report("http-value-revealed-without-pr/read-callback/"+ch.Format, fmt.Sprintf("%s %s: GET /characteristics reveals the value of the application's read callback (callback invoked %d times)", e.name, pk, calls), cas)
-			case ch.Value != nil:
+			case ch.Value != nil && !c11Narrowed[ch]:
 				c.Report("http-value-stored-without-pr/read-callback/"+ch.Format, fmt.Sprintf("%s %s: a remote read stored the read callback's value", e.name, pk), cas)
 			}
 		}
@@ -659,7 +685,7 @@ func init() {
 	fw.Register(&fw.Check{
 		ID:    "C11",
 		Level: "exploration",
-		Rule:  "every characteristic constructor found in /repo with its own permissions plus the five generic constructors under all 8 subsets of {pr,pw,ev}. In-process: every subject × ≈40 JSON-like values through UpdateValueFromConnection, alone and after each of five first events that change nothing (local update with the same value, ignored local updates, a remote read with and without a read callback, a remote write of the current value), (and UpdateValue for write-only ones): without pw value and all callback counters unchanged; without pr no value stored or encoded. HTTP (real transport, verified controller): per characteristic a changing valid PUT, a GET, ev=true, value+ev in one entry, then a local and a remote change followed by a barrier request: without pw nothing changes and no callback fires; without pr no value is stored or revealed (also while the application has a read callback installed); without ev the subscription entry is answered with a non-zero status (also for non-boolean spellings of the flag) and no EVENT follows; an EVENT for an observable characteristic without pr carries no value. distinct_nontrivial = distinct (path, format, permission set) classes The permissions a subject is DECLARED to have are taken from gen/metadata.json (by type id), not from the object; subjects whose permission sets come from the exported helpers (PermsAll/Read/ReadOnly/WriteOnly) are built while other code extends and edits the helpers' results; a rejected subscription inside requests with entries that succeed (before / after it) still carries its status. Plus, in a subprocess built with a scheduling point before EVERY statement of hc's packages (textual insertion through go build -overlay): every interleaving with at most 1 (thorough 2) preemptions of pairs of operations on disjoint objects — and, where the property is about served requests, of pairs of handlers on two verified connections of one accessory touching different characteristics — each side must observe exactly what it observes when the two run one after the other (module-level mutable state is what makes them differ).",
+		Rule:  "every characteristic constructor found in /repo with its own permissions plus the five generic constructors under all 8 subsets of {pr,pw,ev}. In-process: every subject × ≈40 JSON-like values through UpdateValueFromConnection, alone and after each of five first events that change nothing (local update with the same value, ignored local updates, a remote read with and without a read callback, a remote write of the current value), (and UpdateValue for write-only ones): without pw value and all callback counters unchanged; without pr no value stored or encoded. HTTP (real transport, verified controller): per characteristic a changing valid PUT, a GET, ev=true, value+ev in one entry, then a local and a remote change followed by a barrier request: without pw nothing changes and no callback fires; without pr no value is stored or revealed (also while the application has a read callback installed, and for library characteristics whose permissions the application narrowed to write-only after they had a value: GET /characteristics is refused by permission, not by absence of a value); without ev the subscription entry is answered with a non-zero status (also for non-boolean spellings of the flag) and no EVENT follows; an EVENT for an observable characteristic without pr carries no value. distinct_nontrivial = distinct (path, format, permission set) classes The permissions a subject is DECLARED to have are taken from gen/metadata.json (by type id), not from the object; subjects whose permission sets come from the exported helpers (PermsAll/Read/ReadOnly/WriteOnly) are built while other code extends and edits the helpers' results; a rejected subscription inside requests with entries that succeed (before / after it) still carries its status. Plus, in a subprocess built with a scheduling point before EVERY statement of hc's packages (textual insertion through go build -overlay): every interleaving with at most 1 (thorough 2) preemptions of pairs of operations on disjoint objects — and, where the property is about served requests, of pairs of handlers on two verified connections of one accessory touching different characteristics — each side must observe exactly what it observes when the two run one after the other (module-level mutable state is what makes them differ).",
 		Run:   c11Run,
 		Replay: func(c *fw.Ctx, raw json.RawMessage) {
 			var cas c11Case
